@@ -228,7 +228,7 @@ def evaluate(case, only: str = None):
             if _STATS is not None:
                 _STATS.append((H.lattice_label(case["recs"]) + "@" + ",".join(zero_set(case)), key, names[k], abs(g[k] - Ds[k]),
                                max(abs(g[k]), abs(Ds[k])), se[k], 0.0))
-            if abs(g[k] - Ds[k]) > tol:
+            if not abs(g[k] - Ds[k]) <= tol:
                 kind = "none" if isnone[k, j] else "wrong"
                 shown = "None" if isnone[k, j] else repr(float(g[k]))
                 bad.setdefault(kind, []).append(
